@@ -114,3 +114,96 @@ Proof.
   - left. reflexivity.
   - unfold measure, new_lexer. cbn [remaining ioRedirect]. lia.
 Qed.
+
+(* ---------- the only panic site: a word that ShToken() cannot tokenize (WkNil) ---------- *)
+
+Lemma lex_word_panic token kind lx : lex_word token kind lx = LexPanic -> kind = WkNil.
+Proof.
+  unfold lex_word.
+  repeat match goal with |- context [if ?b then _ else _] => destruct b end;
+    try discriminate; destruct kind; try discriminate; reflexivity.
+Qed.
+
+Lemma Lex_panic lx : Lex lx = LexPanic ->
+  exists first rest, remaining lx = first :: rest /\ t_kind first = WkNil.
+Proof.
+  unfold Lex. destruct (remaining lx) as [| first rest]; [discriminate |].
+  destruct (ioRedirect lx) as [| b bs].
+  - destruct (lookup operator_table (t_text first)) as [[t0 eff] |]; [discriminate |].
+    destruct (match_io_number (t_text first)) as [[ds op] |]; [discriminate |].
+    intro H. exists first, rest. split; [reflexivity |].
+    destruct (atCommandStart _).
+    + destruct (lookup keyword_table (t_text first)) as [[t0 eff] |]; [discriminate |].
+      exact (lex_word_panic _ _ _ H).
+    + exact (lex_word_panic _ _ _ H).
+  - destruct (lookup operator_table (b :: bs)) as [[t0 eff] |]; [discriminate |].
+    destruct (match_io_number (b :: bs)) as [[ds op] |]; [discriminate |].
+    intro H. exfalso.
+    destruct (atCommandStart _).
+    + destruct (lookup keyword_table (b :: bs)) as [[t0 eff] |]; [discriminate |].
+      apply lex_word_panic in H. discriminate.
+    + apply lex_word_panic in H. discriminate.
+Qed.
+
+(* Lex never puts tokens back *)
+Lemma Lex_remaining lx t lx' : Lex lx = LexTok t lx' ->
+  remaining lx' = remaining lx \/ exists first, remaining lx = first :: remaining lx'.
+Proof.
+  unfold Lex. destruct (remaining lx) as [| first rest] eqn:Erem; [discriminate |].
+  assert (Hword : forall token kind l, lex_word token kind (bump l) = LexTok t lx' -> remaining lx' = remaining l).
+  { intros token kind l H. apply lex_word_keeps in H. destruct H as [Hr _].
+    destruct (bump_keeps l) as [Hrb _]. congruence. }
+  destruct (ioRedirect lx) as [| b bs].
+  - right. exists first. f_equal.
+    set (lx1 := set_remaining rest (set_io [] lx)) in *.
+    assert (Hr1 : remaining lx1 = rest) by reflexivity.
+    destruct (lookup operator_table (t_text first)) as [[t0 eff] |] eqn:Eop.
+    + injection H as <- <-. destruct (operator_effects_keep _ _ _ Eop lx1) as [Hr _]. congruence.
+    + destruct (match_io_number (t_text first)) as [[ds op] |].
+      * injection H as <- <-. reflexivity.
+      * destruct (atCommandStart lx1).
+        -- destruct (lookup keyword_table (t_text first)) as [[t0 eff] |] eqn:Ekw.
+           ++ injection H as <- <-.
+              destruct (keyword_effects_keep _ _ _ Ekw (set_for (-1) (set_case (-1) lx1))) as [Hr _].
+              rewrite Hr. reflexivity.
+           ++ rewrite (Hword _ _ _ H). reflexivity.
+        -- rewrite (Hword _ _ _ H). reflexivity.
+  - left.
+    set (lx1 := set_io [] lx) in *.
+    assert (Hr1 : remaining lx1 = first :: rest) by (unfold lx1; cbn [remaining set_io]; exact Erem).
+    destruct (lookup operator_table (b :: bs)) as [[t0 eff] |] eqn:Eop.
+    + injection H as <- <-. destruct (operator_effects_keep _ _ _ Eop lx1) as [Hr _]. congruence.
+    + destruct (match_io_number (b :: bs)) as [[ds op] |].
+      * injection H as <- <-. cbn [remaining set_io]. exact Hr1.
+      * destruct (atCommandStart lx1).
+        -- destruct (lookup keyword_table (b :: bs)) as [[t0 eff] |] eqn:Ekw.
+           ++ injection H as <- <-.
+              destruct (keyword_effects_keep _ _ _ Ekw (set_for (-1) (set_case (-1) lx1))) as [Hr _].
+              rewrite Hr. exact Hr1.
+           ++ rewrite (Hword _ _ _ H). exact Hr1.
+        -- rewrite (Hword _ _ _ H). exact Hr1.
+Qed.
+
+Lemma lex_stream_panic fuel : forall lx,
+  lex_stream fuel lx = LexedPanic -> exists t, In t (remaining lx) /\ t_kind t = WkNil.
+Proof.
+  induction fuel as [| fuel IH]; intros lx H; [discriminate |].
+  cbn [lex_stream] in H. destruct (Lex lx) as [t lx' | lx' |] eqn:E.
+  - destruct (lex_stream fuel lx') eqn:E'; try discriminate.
+    destruct (IH lx' E') as (t0 & Hin & Hk). exists t0. split; [| exact Hk].
+    destruct (Lex_remaining _ _ _ E) as [Hr | (first & Hr)]; rewrite Hr in *; [exact Hin | right; exact Hin].
+  - discriminate.
+  - destruct (Lex_panic lx E) as (first & rest & Hr & Hk). exists first. rewrite Hr. split; [left; reflexivity | exact Hk].
+Qed.
+
+(* on tokens that the real tokenizer can re-tokenize (no WkNil), Lex neither panics nor
+   runs out of fuel: shell_lex yields a terminal string *)
+Theorem shell_lex_defined : forall tokens,
+  (forall t, In t tokens -> t_kind t <> WkNil) -> exists ts, shell_lex tokens = Lexed ts.
+Proof.
+  intros tokens Hk. destruct (shell_lex tokens) as [ts | |] eqn:E.
+  - exists ts. reflexivity.
+  - unfold shell_lex in E. apply lex_stream_panic in E. destruct E as (t & Hin & Hn).
+    exfalso. exact (Hk t Hin Hn).
+  - exfalso. exact (shell_lex_total tokens E).
+Qed.
